@@ -34,6 +34,19 @@ impl BoxedFunction {
     { unimplemented!() }
 }
 
+/// Stand-in for the user-facing trait `UserFunction` (implemented by user code).  Only what boxing must preserve is modelled.
+pub trait UserFunction: Sized {
+    spec fn uf_name(&self) -> &'static str;
+    spec fn uf_cacheable(&self) -> bool;
+}
+
+/// R20: `Box::new(f)` used where a `BoxedFunction` (= `Box<dyn UserFunction + Send + Sync>`) is expected.
+/// ASSUMED: the trait object dispatches to the boxed value, i.e. it reports the same `name()` and `cacheable()`.
+#[verifier::external_body]
+pub fn box_user_function<F: UserFunction + Send + Sync + 'static>(f: F) -> (r: BoxedFunction)
+    ensures r.spec_name() == f.uf_name(), r.spec_cacheable() == f.uf_cacheable(),
+{ unimplemented!() }
+
 /// ascending key order of a finite map with String keys = the order in which `&BTreeMap` iterates (std guarantee)
 pub uninterp spec fn key_order(dom: Set<String>) -> Seq<String>;
 #[verifier::external_body]
